@@ -17,6 +17,7 @@ import (
 	"strconv"
 	"strings"
 	"sync"
+	"sync/atomic"
 	"syscall"
 	"time"
 )
@@ -79,7 +80,19 @@ func (r *Result) AddObs(k string, n int64) {
 	if r.Obs == nil {
 		r.Obs = map[string]int64{}
 	}
-	r.Obs[k] += n
+	r.Obs[foldKey(k)] += n
+}
+
+// foldKey folds per-level counters of deep levels into one bucket (compact.L7 -> compact.L5+).
+func foldKey(k string) string {
+	for _, p := range []string{"compact.L", "recover.table.L", "cases_maxlevel_", "maxlevel_", "layouts_maxlevel_"} {
+		if strings.HasPrefix(k, p) {
+			if n, err := strconv.Atoi(k[len(p):]); err == nil && n >= 5 {
+				return p + "5+"
+			}
+		}
+	}
+	return k
 }
 
 func HashOf(v any) string {
@@ -118,6 +131,9 @@ type Check struct {
 	Exhaustive func(tier string) bool
 	// Props whose violations this check reports (default: only Prop).
 	Reports []string
+	// OnStuck is called in the worker when a case exceeded CaseTimeout, with the stuck-state
+	// analysis; it may turn the inconclusive result into a violation (C15).
+	OnStuck func(c Case, an StuckAnalysis, res *Result)
 	// Post is called in the parent with all results, it may add observations to the evidence.
 	Post func(tier string, results []Result, cov map[string]any)
 }
@@ -143,6 +159,15 @@ func VerifDir() string {
 		return d
 	}
 	return "/verif"
+}
+
+// OutDir is where evidence and replays are written (VERIF_OUT redirects them for self-validation
+// runs against scratch copies, so that committed evidence only ever comes from /repo).
+func OutDir() string {
+	if d := os.Getenv("VERIF_OUT"); d != "" {
+		return d
+	}
+	return VerifDir()
 }
 
 // ScratchBase returns a fresh directory on tmpfs (fallback TMPDIR) for database directories.
@@ -207,9 +232,40 @@ func WorkerMain(prop, casesFile, outFile string) int {
 		pprof.StartCPUProfile(f)
 		defer pprof.StopCPUProfile()
 	}
-	for _, c := range cases {
+	ct := chk.CaseTimeout
+	if ct == 0 {
+		ct = 60 * time.Second
+	}
+	var cur atomic.Pointer[Case]
+	var started atomic.Int64
+	// in-process watchdog: a case that exceeds its wall-clock limit is analysed (stable blocked
+	// state or not), reported, and the process ends; the parent re-runs the rest of the batch.
+	go func() {
+		for {
+			time.Sleep(250 * time.Millisecond)
+			c := cur.Load()
+			if c == nil || time.Since(time.Unix(0, started.Load())) < ct {
+				continue
+			}
+			res := Result{ID: c.ID, Verdict: "inconclusive"}
+			an := AnalyseStuck(3 * time.Second)
+			res.Inconcl = fmt.Sprintf("watchdog: case still running after %v; %s", ct, an.Summary)
+			res.Trace = map[string]any{"stuck_analysis": an}
+			if chk.OnStuck != nil {
+				chk.OnStuck(*c, an, &res)
+			}
+			write(res)
+			write(map[string]bool{"watchdog": true})
+			os.Exit(3)
+		}
+	}()
+	for i := range cases {
+		c := cases[i]
 		write(map[string]string{"start": c.ID})
+		started.Store(time.Now().UnixNano())
+		cur.Store(&c)
 		res := chk.Run(c)
+		cur.Store(nil)
 		res.ID = c.ID
 		if res.Verdict == "" {
 			res.Verdict = "ok"
@@ -241,6 +297,7 @@ type batchOut struct {
 	stderr   string
 	raceLogs []string
 	timedOut bool
+	watchdog bool
 }
 
 func exe(race bool) string {
@@ -280,9 +337,9 @@ func runBatch(chk *Check, cases []Case, work string, idx int) batchOut {
 	cmd.Env = append(cmd.Env, "VERIF_SCRATCH="+filepath.Join(work, fmt.Sprintf("scratch%d", idx)))
 	ct := chk.CaseTimeout
 	if ct == 0 {
-		ct = 120 * time.Second
+		ct = 60 * time.Second
 	}
-	limit := ct*time.Duration(len(cases)) + 30*time.Second
+	limit := ct*time.Duration(len(cases)) + 60*time.Second
 	var bo batchOut
 	if err := cmd.Start(); err != nil {
 		bo.died = "start: " + err.Error()
@@ -323,6 +380,10 @@ func runBatch(chk *Check, cases []Case, work string, idx int) batchOut {
 			}
 			if _, ok := probe["done"]; ok {
 				finished = true
+				continue
+			}
+			if _, ok := probe["watchdog"]; ok {
+				bo.watchdog = true
 				continue
 			}
 			var r Result
@@ -485,6 +546,7 @@ func RunCheck(prop, tier string, seed int64) int {
 		}
 	}
 	outs := make([]batchOut, len(batches))
+	var watchdogs atomic.Int64
 	sem := make(chan struct{}, par)
 	var wg sync.WaitGroup
 	for i := range batches {
@@ -496,11 +558,31 @@ func RunCheck(prop, tier string, seed int64) int {
 			pending := batches[i]
 			// a died worker loses the rest of its batch: re-run the remaining cases in a fresh process
 			for attempt := 0; len(pending) > 0 && attempt < len(batches[i])+1; attempt++ {
+				if watchdogs.Load() >= 4 {
+					break // circuit breaker: the tree hangs, stop burning time (the run ends inconclusive)
+				}
 				bo := runBatch(chk, pending, work, i*1000+attempt)
+				if bo.watchdog {
+					watchdogs.Add(1)
+				}
 				outs[i].results = append(outs[i].results, bo.results...)
 				outs[i].raceLogs = append(outs[i].raceLogs, bo.raceLogs...)
 				if bo.died == "" {
 					break
+				}
+				if bo.watchdog {
+					doneIDs := map[string]bool{}
+					for _, r := range bo.results {
+						doneIDs[r.ID] = true
+					}
+					var rest []Case
+					for _, c := range pending {
+						if !doneIDs[c.ID] {
+							rest = append(rest, c)
+						}
+					}
+					pending = rest
+					continue
 				}
 				// attribute the death to the case that was running
 				doneIDs := map[string]bool{}
@@ -650,7 +732,7 @@ func RunCheck(prop, tier string, seed int64) int {
 		bySig[k] = append(bySig[k], v)
 	}
 	sort.Strings(sigs)
-	replayDir := filepath.Join(VerifDir(), "replays", prop)
+	replayDir := filepath.Join(OutDir(), "replays", prop)
 	printed := 0
 	for _, k := range sigs {
 		vs := bySig[k]
@@ -716,9 +798,9 @@ func RunCheck(prop, tier string, seed int64) int {
 		"violations":  len(sigs),
 	}
 	if os.Getenv("VERIF_ONLY_CASE") == "" {
-		os.MkdirAll(filepath.Join(VerifDir(), "evidence"), 0755)
+		os.MkdirAll(filepath.Join(OutDir(), "evidence"), 0755)
 		eb, _ := json.MarshalIndent(ev, "", " ")
-		os.WriteFile(filepath.Join(VerifDir(), "evidence", prop+".json"), append(eb, '\n'), 0644)
+		os.WriteFile(filepath.Join(OutDir(), "evidence", prop+".json"), append(eb, '\n'), 0644)
 	}
 
 	keys := make([]string, 0, len(obs))
